@@ -92,8 +92,8 @@ def n_units(call):
 
 
 def make_entry_call(rng, entry):
-    call = c08.make_call(rng, entry, rng.choice(c08.PATTERNS[:4]))
-    call = c08.with_missing(call, rng.random() < 0.3)
+    call = c08.make_call(rng, entry, rng.choice(c08.PATTERNS[:4] + ['both']))
+    call = c08.with_missing(call, rng.random() < 0.45)
     if 'filter' in call:
         # filters assume set-returning tokenizers for the set measures (they do not coerce)
         call['tok'] = dict(call['tok'], return_set=True)
@@ -205,6 +205,11 @@ def permute_table(rng, spec, how):
         s['index'] = ['k%d' % i for i in rng.sample(range(10 * n + 1), n)]
     elif how == 'index_range':
         s['index'] = None
+    elif how == 'index_dup':        # labels restart, as after pd.concat without ignore_index
+        k = max(1, n // 2)
+        s['index'] = [i % k for i in range(n)]
+    elif how == 'index_const':
+        s['index'] = [3] * n
     elif how == 'add_cols':
         s['cols'] = ['zz_extra1'] + s['cols'] + ['zz_extra2']
         s['data']['zz_extra1'] = [rng.random() for _ in range(n)]
@@ -230,10 +235,13 @@ def pres_case(case, rec, ssj):
     base_rows = rows_of(base)
     variants = []
     for side in ('ltable', 'rtable'):
-        for how in ('perm', 'reverse', 'index_int', 'index_str', 'index_range', 'add_cols'):
+        for how in ('perm', 'reverse', 'index_int', 'index_str', 'index_range', 'add_cols', 'index_dup',
+                    'index_const'):
             variants.append((side, how))
     rng.shuffle(variants)
-    variants = variants[:6] + [('repeat', 'repeat')]
+    variants = variants[:7] + [('repeat', 'repeat')]
+    if not any(h == 'index_dup' for _, h in variants):
+        variants.append((rng.choice(['ltable', 'rtable']), 'index_dup'))
     if call['api'] in ('filter_candset', 'apply_matcher'):
         variants.append(('candset', 'index_str'))
         variants.append(('candset', 'index_int'))
